@@ -15,7 +15,7 @@ C12 — property theorems about the state machine `CBV.C12` (Model/C12.lean), fo
 * `T_C12_backport_single_move`  after one move_to: only corners that sat on the moved vertex change;
 * `T_C12_wf_run`          the representation invariant holds along every legal history.
 -/
-import CBV.Lemmas.C12d
+import CBV.Lemmas.C12Tie
 
 namespace CBV.C12
 
@@ -209,7 +209,7 @@ theorem T_C12_backport_move (m m' : Mesh) (hb : backport m = some m')
 
 /-- One `move_to` on an aligned mesh, then `backport()`: an operation's corner changes iff it sat on the moved
     vertex; operations whose block does not contain that vertex keep all their points. -/
-theorem T_C12_backport_single_move (m0 : Mesh) (r loc : Nat) (ha : Aligned m0) (hv : m0.lists.verts ≠ []) :
+theorem T_C12_backport_single_move (m0 : Mesh) (r : Nat) (loc : Pt) (ha : Aligned m0) (hv : m0.lists.verts ≠ []) :
     let i := r % m0.lists.verts.length
     let m := moveVertex m0 r loc
     ∀ p ∈ m0.lists.blocks.zip m0.lists.assembled, ∀ o ∈ m0.depot, o.id = p.2 →
@@ -239,7 +239,7 @@ theorem T_C12_backport_single_move (m0 : Mesh) (r loc : Nat) (ha : Aligned m0) (
 
 /-- `a.move_to(b.position)` copies the coordinates: afterwards `a` is where `b` is, and moving `a` on does not move `b`
     (two vertices at one place remain two vertices). -/
-theorem T_C12_move_onto (m : Mesh) (r1 r2 loc : Nat) (hv : m.lists.verts ≠ [])
+theorem T_C12_move_onto (m : Mesh) (r1 r2 : Nat) (loc : Pt) (hv : m.lists.verts ≠ [])
     (hne : r1 % m.lists.verts.length ≠ r2 % m.lists.verts.length) :
     locOf (moveOnto m r1 r2).lists.verts (r1 % m.lists.verts.length) = locOf m.lists.verts (r2 % m.lists.verts.length) ∧
     locOf (moveVertex (moveOnto m r1 r2) r1 loc).lists.verts (r1 % m.lists.verts.length) = loc ∧
@@ -306,13 +306,268 @@ theorem T_C12_history (h : List Step) (hl : Legal {} h) :
 
 end
 
+/-! ### coordinates: shared points, payloads, translate, many vertices at once (round 6) -/
+
+/-- `backport()` changes the corner points of an operation and nothing else: its edges with their payload (arc points,
+    spline / polyLine points, projection labels), patch names, projections, chops and cell zone are what they were. -/
+theorem T_C12_backport_payload (vs : List Vtx) (pairs : List (Block × Nat)) (o : Op) :
+    { bpOne vs pairs o with corners := o.corners } = o := by
+  have key : ∀ (pairs : List (Block × Nat)) (o : Op), ∃ cs, bpOne vs pairs o = { o with corners := cs } := by
+    intro pairs
+    induction pairs with
+    | nil => intro o; exact ⟨o.corners, rfl⟩
+    | cons p rest ih =>
+      intro o
+      obtain ⟨b, id⟩ := p
+      simp only [bpOne]
+      have h2 : ∃ cs1, setCorners (b.verts.map (locOf vs)) id o = { o with corners := cs1 } := by
+        unfold setCorners
+        split
+        · exact ⟨_, rfl⟩
+        · exact ⟨o.corners, rfl⟩
+      obtain ⟨cs1, h2⟩ := h2
+      obtain ⟨cs, h3⟩ := ih { o with corners := cs1 }
+      exact ⟨cs, by rw [h2, h3]⟩
+  obtain ⟨cs, h⟩ := key pairs o
+  rw [h]
+
+/-- in particular the twelve edge data survive a `backport()` whatever was moved -/
+theorem T_C12_backport_edges (vs : List Vtx) (pairs : List (Block × Nat)) (o : Op) :
+    (bpOne vs pairs o).bottomEdges = o.bottomEdges ∧ (bpOne vs pairs o).topEdges = o.topEdges ∧
+    (bpOne vs pairs o).sideEdges = o.sideEdges ∧ (bpOne vs pairs o).chops = o.chops := by
+  have h := T_C12_backport_payload vs pairs o
+  exact ⟨by rw [← congrArg Op.bottomEdges h], by rw [← congrArg Op.topEdges h], by rw [← congrArg Op.sideEdges h],
+    by rw [← congrArg Op.chops h]⟩
+
+/-- Shared points are back-ported consistently: when corner `c1` of one operation and corner `c2` of another (or the same)
+    were made the same vertex `v` by the assembly, both corners have the coordinates of `v` after `backport()` —
+    whatever `move_to` / `translate` / optimisation put there. -/
+theorem T_C12_backport_shared (m m' : Mesh) (hb : backport m = some m')
+    (hl : m.lists.blocks.length = m.lists.assembled.length) (hn : m.lists.assembled.Nodup)
+    (p1 p2 : Block × Nat) (h1 : p1 ∈ m.lists.blocks.zip m.lists.assembled) (h2 : p2 ∈ m.lists.blocks.zip m.lists.assembled)
+    (o1 o2 : Op) (hi1 : o1.id = p1.2) (hi2 : o2.id = p2.2) (c1 c2 v : Nat)
+    (hv1 : p1.1.verts[c1]? = some v) (hv2 : p2.1.verts[c2]? = some v) :
+    let pairs := m.lists.blocks.zip m.lists.assembled
+    (bpOne m.lists.verts pairs o1).corners[c1]? = some (locOf m.lists.verts v) ∧
+    (bpOne m.lists.verts pairs o2).corners[c2]? = some (locOf m.lists.verts v) := by
+  intro pairs
+  obtain ⟨_, _, _, hc⟩ := T_C12_backport_move m m' hb hl hn
+  have e1 := (hc p1 h1 o1 hi1).1
+  have e2 := (hc p2 h2 o2 hi2).1
+  simp only [pairs] at *
+  rw [e1, e2]
+  simp [List.getElem?_map, hv1, hv2]
+
+/-- `vertex.translate(d)` adds the displacement to the three coordinates of that vertex and leaves every other vertex
+    where it is -/
+theorem T_C12_translate (m : Mesh) (r : Nat) (d : Pt) (hv : m.lists.verts ≠ []) :
+    let i := r % m.lists.verts.length
+    let p := locOf m.lists.verts i
+    locOf (translateVertex m r d).lists.verts i = ⟨p.x + d.x, p.y + d.y, p.z + d.z⟩ ∧
+    ∀ j, j ≠ i → locOf (translateVertex m r d).lists.verts j = locOf m.lists.verts j := by
+  intro i p
+  have hlen : i < m.lists.verts.length := Nat.mod_lt _ (List.length_pos_iff.mpr hv)
+  have he : m.lists.verts.isEmpty = false := by
+    cases hvv : m.lists.verts with
+    | nil => exact absurd hvv hv
+    | cons _ _ => rfl
+  have hm : (translateVertex m r d).lists.verts = m.lists.verts.modify i (fun v => { v with loc := p.add d }) := by
+    simp [translateVertex, moveVertex, he, i, p]
+  refine ⟨?_, ?_⟩
+  · rw [hm, locOf_modify _ _ _ _ hlen]; simp [Pt.add]
+  · intro j hj
+    rw [hm, locOf_modify _ _ _ _ hlen]; simp [hj]
+
+/-- translate one vertex of an aligned mesh, then `backport()`: a corner that sat on that vertex is displaced by `d`, every
+    other corner keeps its coordinates -/
+theorem T_C12_backport_translate (m0 : Mesh) (r : Nat) (d : Pt) (ha : Aligned m0) (hv : m0.lists.verts ≠ []) :
+    let i := r % m0.lists.verts.length
+    let m := translateVertex m0 r d
+    ∀ p ∈ m0.lists.blocks.zip m0.lists.assembled, ∀ o ∈ m0.depot, o.id = p.2 →
+      p.1.verts.map (locOf m.lists.verts) =
+        p.1.verts.map (fun v => if v = i then (locOf m0.lists.verts i).add d else locOf m0.lists.verts v) ∧
+      (i ∉ p.1.verts → p.1.verts.map (locOf m.lists.verts) = o.corners) :=
+  T_C12_backport_single_move m0 r _ ha hv
+
+/-- Many vertices moved at once (an optimisation run: `move_to` in a loop): only vertex positions change — the vertex
+    list keeps its length, blocks / edges / faces / patches / `assembled` / depot are what they were — and a vertex that
+    is not addressed stays where it is. -/
+theorem T_C12_move_many (m : Mesh) (mv : List (Nat × Pt)) :
+    ∃ vs, moveMany m mv = { m with lists := { m.lists with verts := vs } } ∧ vs.length = m.lists.verts.length ∧
+      ∀ j, (∀ q ∈ mv, q.1 % m.lists.verts.length ≠ j) → locOf vs j = locOf m.lists.verts j := by
+  induction mv generalizing m with
+  | nil => exact ⟨m.lists.verts, rfl, rfl, fun _ _ => rfl⟩
+  | cons q rest ih =>
+    simp only [moveMany, List.foldl_cons]
+    obtain ⟨vs, h1, h2, h3⟩ := ih (moveVertex m q.1 q.2)
+    simp only [moveMany] at h1
+    by_cases he : m.lists.verts.isEmpty = true
+    · have hm : moveVertex m q.1 q.2 = m := by simp [moveVertex, he]
+      rw [hm] at h1 h2 h3 ⊢
+      exact ⟨vs, h1, h2, fun j hj => h3 j (fun q' hq' => hj q' (by simp [hq']))⟩
+    · have he' : m.lists.verts.isEmpty = false := by simpa using he
+      have hne : m.lists.verts ≠ [] := by
+        intro e; rw [e] at he'; simp at he'
+      have hm : moveVertex m q.1 q.2 = { m with lists := { m.lists with
+          verts := m.lists.verts.modify (q.1 % m.lists.verts.length) (fun v => { v with loc := q.2 }) } } := by
+        simp [moveVertex, he']
+      have hlen : (moveVertex m q.1 q.2).lists.verts.length = m.lists.verts.length := by rw [hm]; simp
+      refine ⟨vs, ?_, by rw [h2, hlen], ?_⟩
+      · rw [h1, hm]
+      · intro j hj
+        rw [h3 j (fun q' hq' => by rw [hlen]; exact hj q' (by simp [hq']))]
+        rw [hm]
+        have hi : q.1 % m.lists.verts.length < m.lists.verts.length := Nat.mod_lt _ (List.length_pos_iff.mpr hne)
+        show locOf (m.lists.verts.modify _ _) j = _
+        rw [locOf_modify _ _ _ _ hi]
+        have : ¬ j = q.1 % m.lists.verts.length := fun e => hj q (by simp) e.symm
+        simp [this]
+
+/-- … hence after `backport()` an operation whose block holds none of the addressed vertices has exactly its old points
+    (and, by `T_C12_backport_move`, every other operation has the current coordinates of its block's vertices) -/
+theorem T_C12_backport_many (m0 : Mesh) (mv : List (Nat × Pt)) (ha : Aligned m0) :
+    ∀ p ∈ m0.lists.blocks.zip m0.lists.assembled, ∀ o ∈ m0.depot, o.id = p.2 →
+      (∀ q ∈ mv, q.1 % m0.lists.verts.length ∉ p.1.verts) →
+      p.1.verts.map (locOf (moveMany m0 mv).lists.verts) = o.corners ∧
+      (moveMany m0 mv).lists.blocks.zip (moveMany m0 mv).lists.assembled = m0.lists.blocks.zip m0.lists.assembled := by
+  intro p hp o ho hid hq
+  obtain ⟨vs, h1, _, h3⟩ := T_C12_move_many m0 mv
+  rw [h1]
+  refine ⟨?_, rfl⟩
+  rw [ha p hp o ho hid]
+  apply List.map_congr_left
+  intro v hv
+  exact h3 v (fun q hq' e => hq q hq' (e ▸ hv))
+
+/-! ### exceptions in the middle (round 6) -/
+
+/-- What a failed `write()` leaves behind.  Rejected ("Cannot grade a mesh before it is assembled"): the state is untouched.
+    Failed on undefined gradings (`UndefinedGradingsError`): nothing is rolled back — the mesh stays assembled (it was
+    assembled by this call if it was not before) with every block graded, all other lists as the assembly made them. -/
+theorem T_C12_write_failure_state (m : Mesh) :
+    (written m = .error .notAssembled → (write m).1 = m) ∧
+    (written m = .error .undefined →
+      (write m).1 = gradeBlocks (if isAssembled m then m else assemble m) ∧ isAssembled (write m).1 = true) := by
+  constructor
+  · intro h
+    obtain ⟨hna, hl⟩ := (T_C12_write_rejects m).mp h
+    have hm : assemble m = m := by
+      have : (assemble m).lists = m.lists := by rw [assemble_lists, hl]; rfl
+      show ({ m with lists := (assemble m).lists } : Mesh) = m
+      rw [this]
+    exact write_state_unassembled m hna hm
+  · intro h
+    unfold written at h
+    rw [write_eq] at h ⊢
+    generalize (if isAssembled m = true then m else assemble m) = x at h ⊢
+    unfold writeFrom at h ⊢
+    by_cases hx : isAssembled x = true
+    · simp only [hx, Bool.not_true, Bool.false_eq_true, if_false] at h ⊢
+      split
+      · exact ⟨rfl, hx⟩
+      · exact ⟨rfl, hx⟩
+    · have hx' : isAssembled x = false := by simpa using hx
+      simp [hx'] at h
+
+/-- … and it leaves no trace a re-assembly would not remove: on a mesh that is in sync with its depot, `write()` —
+    successful or failed — followed by `clear(); assemble()` gives back the very same state, and a second `write()` fails
+    (or succeeds) in the same way. -/
+theorem T_C12_write_failure_recover (m : Mesh) :
+    RT (write (RT m)).1 = RT m ∧ written (write m).1 = written m := by
+  refine ⟨?_, T_C12_write_idem_file m⟩
+  by_cases h : isAssembled (RT m) = true
+  · rw [write_state_assembled _ h]
+    show assemble (clear (gradeBlocks (RT m))) = RT m
+    have : clear (gradeBlocks (RT m)) = clear (RT m) := rfl
+    rw [this]
+    exact RT_idem m
+  · have h' : isAssembled (RT m) = false := by simpa using h
+    rw [write_state_unassembled _ h' (canon_not_assembled _ (canon_RT m) h')]
+    exact RT_idem m
+
+/-! ### the model functions are the statements of the current source (regenerated by `cbv/tables/c12.py`) -/
+
+/-- `Mesh.clear` of the source — its `self.<list>.clear()` statements in order, each with the statements of that list's
+    `clear()` — empties exactly what the model's `clear` empties: `Mesh.assembled`, vertices and duplicated entries, edges,
+    blocks, faces, and the *sides* of every patch (the entries with their types and settings stay). -/
+theorem T_C12_tie_clear (m : Mesh) : clearBy CBV.Gen.c12ClearCalls CBV.Gen.c12ClearOther m = some (clear m) := by
+  rfl
+
+/-- the file is the concatenation of the `output.write(...)` calls of `Mesh.write` in source order -/
+theorem T_C12_tie_render (m : Mesh) : renderBy CBV.Gen.c12WriteSections m = some (render m) := by
+  simp [renderBy, CBV.Gen.c12WriteSections, sectionOf, render, List.mapM_cons, List.mapM_nil]
+
+/-- `Mesh.backport` of the source, statement by statement (guard, the loop over `zip(blocks, assembled)` with the two
+    `Face.update` calls, `clear()`, `assemble()`), is the model's `backport` -/
+theorem T_C12_tie_backport (m : Mesh) : backportBy (methodStmts "Mesh.backport") m = some (backport m) := by
+  have h : methodStmts "Mesh.backport" =
+      [("if not self.is_assembled:", ["    raise RuntimeError('Cannot backport non-assembled mesh')"]),
+       ("for block, op in zip(self.blocks, self.assembled):",
+        ["    vertices = [vertex.position for vertex in block.vertices]", "    op.bottom_face.update(vertices[:4])",
+         "    op.top_face.update(vertices[4:])"]),
+       ("self.clear()", []), ("self.assemble()", [])] := by decide
+  rw [h]
+  unfold backport
+  by_cases ha : isAssembled m = true <;> simp [backportBy, backportEffect, ha]
+
+/-- `Mesh.write` of the source (assemble when not assembled, `grade()` = the four statements of `Mesh.grade`, then the
+    sections) is the model's `write`: same state afterwards, same file or error -/
+theorem T_C12_tie_write (m : Mesh) :
+    writeBy CBV.Gen.c12WritePre (methodStmts "Mesh.grade") CBV.Gen.c12WriteSections m = some (write m) := by
+  have hg : methodStmts "Mesh.grade" =
+      [("if not self.is_assembled:", ["    raise RuntimeError('Cannot grade a mesh before it is assembled')"]),
+       ("self.block_list.grade_blocks()", []), ("self.block_list.propagate_gradings()", []),
+       ("self.block_list.check_consistency()", [])] := by decide
+  have hp : CBV.Gen.c12WritePre =
+      [("if not self.is_assembled:", ["    self.assemble()"]),
+       ("if debug_path is not None:", ["    write_vtk(debug_path, self.vertex_list.vertices, self.block_list.blocks)"]),
+       ("self.grade()", [])] := by decide
+  rw [hg, hp]
+  exact writeBy_eq m
+
+/-- the one-statement methods and the skeleton of `Mesh.assemble` (two nested loops, the skip of deleted operations with
+    `continue`, vertices → block → edges → chops → cell zone → block list → `assembled` → patches → faces) are literally
+    what the model mirrors; `is_assembled` looks at the vertex list; `Face.update` assigns the positions in order;
+    `grade_blocks` resets every axis before grading -/
+theorem T_C12_tie_statements :
+    methodStmts "Mesh.delete" = [("self.deleted.add(operation)", [])] ∧
+    methodStmts "Mesh.add" = [("self.depot.append(entity)", [])] ∧
+    methodStmts "Mesh.is_assembled" = [("return len(self.vertex_list.vertices) > 0", [])] ∧
+    methodStmts "Mesh.add_geometry" = [("self.geometry_list.add(geometry)", [])] ∧
+    methodStmts "Mesh.modify_patch" = [("self.patch_list.modify(name, kind, settings)", [])] ∧
+    methodStmts "Mesh.set_default_patch" = [("self.patch_list.set_default(name, kind)", [])] ∧
+    methodStmts "Mesh.merge_patches" = [("self.patch_list.merge(master, slave)", [])] ∧
+    methodStmts "PatchList.modify" = [("patch = self.get(name)", []), ("patch.kind = kind", []),
+      ("if settings is not None:", ["    patch.settings = settings"]), ("self.modified.add(name)", [])] ∧
+    methodStmts "Face.update" = [("for i, point in enumerate(points):",
+      ["    self.points[i].position = np.array(point, dtype=constants.DTYPE)"])] ∧
+    methodStmts "BlockList.grade_blocks" = [("for block in self.blocks:", ["    for axis in block.axes:", "        axis.wires.reset()"]),
+      ("for block in self.blocks:", ["    block.grade()"])] ∧
+    (methodStmts "Mesh.assemble").head? = some ("for entity in self.depot:",
+      ["    if isinstance(entity, Operation):", "        operations = [entity]", "    else:",
+       "        operations = entity.operations", "    for operation in operations:",
+       "        if operation in self.deleted:", "            continue",
+       "        vertices = self._add_vertices(operation)",
+       "        block = Block(len(self.block_list.blocks), vertices)", "        if not skip_edges:",
+       "            for data in self.edge_list.add_from_operation(vertices, operation):",
+       "                block.add_edge(*data)", "        for axis in get_args(AxisType):",
+       "            for chop in operation.chops[axis]:", "                block.chop(axis, chop)",
+       "        block.cell_zone = operation.cell_zone", "        self.block_list.add(block)",
+       "        self.assembled.append(operation)", "        self.patch_list.add(vertices, operation)",
+       "        self.face_list.add(vertices, operation)", "    if entity.geometry is not None:",
+       "        self.add_geometry(entity.geometry)"]) ∧
+    -- what `Mesh.__init__` creates: the state components of the model, and `settings`, which no call of a history touches
+    CBV.Gen.c12InitAttrs.map (·.1) = ["depot", "deleted", "assembled", "vertex_list", "edge_list", "block_list",
+      "patch_list", "face_list", "geometry_list", "settings"] := by
+  decide
+
 /-! ### non-vacuity: a concrete history satisfies the hypotheses -/
 
-def exOp (id : Nat) (cs : List Nat) (left : Option String) : Op :=
+def exOp (id : Nat) (cs : List Pt) (left : Option String) : Op :=
   { id := id, corners := cs, bottomPatch := none, topPatch := none, sidePatches := [none, none, none, left],
     bottomProj := none, topProj := none, sideProj := [none, none, none, none],
     cornerProj := [[], [], [], [], [], [], [], []],
-    bottomEdges := [.line, .line, .line, .line], topEdges := [.line, .arc "a0", .line, .line],
+    bottomEdges := [.line, .line, .line, .line], topEdges := [.line, .arc ⟨11/2, 1/4, -1/8⟩, .line, .line],
     sideEdges := [.line, .line, .line, .line], chops := [[⟨"1.0", 2⟩], [⟨"1.0", 3⟩], [⟨"0.5", 1⟩, ⟨"0.5", 2⟩]], zone := "" }
 
 /-- two boxes side by side, the first one deleted, a patch type changed, one vertex moved -/
@@ -368,5 +623,47 @@ example :
 /-- hypotheses of `T_C12_move_onto`: the example mesh has vertices and vertices 5 and 2 are different ones -/
 example : (RT (run {} exHistory)).lists.verts ≠ [] ∧
     5 % (RT (run {} exHistory)).lists.verts.length ≠ 2 % (RT (run {} exHistory)).lists.verts.length := by decide +kernel
+
+/-! ### non-vacuity of the round-6 theorems -/
+
+/-- two live boxes sharing four points, vertex 1 (shared) displaced by (1/2, 1/4, 0) -/
+def exShared : List Step :=
+  [.add (exOp 0 [0, 1, 2, 3, 4, 5, 6, 7] (some "inlet")), .add (exOp 1 [1, 8, 9, 2, 5, 10, 11, 6] none), .assemble,
+   .translate 1 ⟨1/2, 1/4, 0⟩]
+
+/-- hypotheses of `T_C12_backport_shared` hold there (assembled, one `assembled` entry per block, no identity twice; corner 1
+    of operation 0 and corner 0 of operation 1 are vertex 1), and both corners arrive at (3/2, 1/4, 0) -/
+example :
+    let m := run {} exShared
+    (backport m).isSome = true ∧ m.lists.blocks.length = m.lists.assembled.length ∧ m.lists.assembled.Nodup ∧
+    (m.lists.blocks.map (·.verts[1]?))[0]? = some (some 1) ∧ (m.lists.blocks.map (·.verts[0]?))[1]? = some (some 1) ∧
+    (backport m).map (fun m' => m'.depot.map (fun o => (o.corners[1]?, o.corners[0]?))) =
+      some [(some ⟨3/2, 1/4, 0⟩, some 0), (some 8, some ⟨3/2, 1/4, 0⟩)] := by decide +kernel
+
+/-- hypothesis of `T_C12_translate`: the mesh has vertices; the arc of the top face is still there after the backport
+    (`T_C12_backport_edges`) and the vertex is written with `%.8f` -/
+example :
+    let m := run {} exShared
+    m.lists.verts ≠ [] ∧
+    (backport m).map (fun m' => m'.depot.map (·.topEdges)) = some [(exOp 0 [] none).topEdges, (exOp 1 [] none).topEdges] ∧
+    (m.lists.verts[1]?).map Vtx.descr = some "(1.50000000 0.25000000 0.00000000)" := by decide +kernel
+
+/-- `%.8f`: sign, padding, ties to even -/
+example : fmt8 (-1/3) = "-0.33333333" ∧ fmt8 (1/200000000) = "0.00000000" ∧ fmt8 (3/200000000) = "0.00000002" ∧
+    fmt8 (2500 + 1/8) = "2500.12500000" := by decide +kernel
+
+def failsWith (e : Err) (r : Except Err Text) : Bool := match r with | .error e' => decide (e' = e) | .ok _ => false
+
+theorem failsWith_iff (e : Err) (r : Except Err Text) : failsWith e r = true ↔ r = .error e := by
+  cases r <;> simp [failsWith]
+
+/-- both failures of `T_C12_write_failure_state` occur: an empty mesh is rejected; an operation without chops on its first
+    axis fails on undefined gradings and the mesh is left assembled -/
+example : written ({} : Mesh) = .error .notAssembled ∧
+    written (run {} [.add { exOp 0 [0, 1, 2, 3, 4, 5, 6, 7] none with chops := [[], [⟨"1.0", 3⟩], [⟨"1.0", 2⟩]] }])
+      = .error .undefined ∧
+    isAssembled (run {} [.add { exOp 0 [0, 1, 2, 3, 4, 5, 6, 7] none with chops := [[], [⟨"1.0", 3⟩], [⟨"1.0", 2⟩]] }, .write])
+      = true :=
+  ⟨(failsWith_iff _ _).mp (by decide +kernel), (failsWith_iff _ _).mp (by decide +kernel), by decide +kernel⟩
 
 end CBV.C12
